@@ -13,6 +13,15 @@ def run_inproc(pid, cases):
 
 def main(argv):
     pid, fin, fout = argv
+    try:
+        # a livelock in the code under test that accumulates results (e.g. a driver loop that never terminates) must end in a
+        # MemoryError inside the case (reported as a failure of that case), not in an exhausted machine
+        import resource
+
+        lim = int(float(os.environ.get("VERIF_WORKER_MEM_GB", "20")) * 2 ** 30)
+        resource.setrlimit(resource.RLIMIT_AS, (lim, lim))
+    except Exception:  # noqa: BLE001
+        pass
     cases = json.load(open(fin))
     try:
         mod = importlib.import_module(f"mc.props.{pid}")
